@@ -61,7 +61,7 @@ LoadFails(e) ==
     LET c == e.cls IN
     IF c \notin Classes THEN {"UNKNOWN-EVENT"}
     ELSE (IF ~GettersMatch(c, e.raw, e.get) THEN {"C12"} ELSE {})
-    \cup (IF c \in WireClasses /\ e.raw # (IF c \in {"cmpHeader", "msgHeader", "tecmpHeader"}
+    \cup (IF c \in WireClasses /\ e.raw # (IF c \in {"cmpHeader", "msgHeader", "tecmpHeader"} \cup DOMAIN HeaderAlias
                                            THEN SubSeq(e.loaded, 1, Table[c].size) ELSE e.loaded)
           THEN {"NC"} ELSE {})
 
@@ -77,6 +77,11 @@ SetFails(e) ==
     ELSE
         (IF \/ ~(Has(e.get, e.f) /\ LowBits(e.get[e.f], f.w) = vbits)
             \/ \E g \in Known(c, e.get) \cap DOMAIN st.get : g # e.f /\ ~Overlap(FieldOf(c, g), f) /\ e.get[g] # st.get[g]
+            \/ \E g \in Known(c, e.get) \cap DOMAIN st.get :          \* a getter over a larger word: its bits outside the field
+                 LET h == FieldOf(c, g) IN
+                 /\ g # e.f /\ Overlap(h, f) /\ Len(BytesToBits(e.get[g])) >= h.w /\ Len(BytesToBits(st.get[g])) >= h.w
+                 /\ LET ga == LowBits(e.get[g], h.w)  gb == LowBits(st.get[g], h.w) IN
+                    \E i \in 1..h.w : (h.o + i) \notin BitsOfField(f) /\ ga[i] # gb[i]
             \/ Len(e.raw) # Len(st.raw)
             \/ SubSeq(e.raw, size + 1, Len(e.raw)) # SubSeq(st.raw, size + 1, Len(st.raw))
          THEN {"C11"} ELSE {})
